@@ -478,3 +478,45 @@ func GenKeepaliveCase(t *rapid.T, txn *bool) (OutCfg, []SrcCmd, Schedule) {
 	s := Schedule{Chunks: []int{0}, Pauses: []Pause{{At: at, Ms: c.KeepaliveMs + 90}}}
 	return c, cmds, s
 }
+
+// PingIdle rewrites a stream and builds a command-aligned schedule the way an idle master behaves: its keep-alive PINGs are
+// surrounded by idle time (a master only sends PING when it has nothing else to send), and what follows an idle period is typically
+// a SELECT or a MULTI. PINGs are inserted in front of some SELECT / MULTI commands and after some plain commands; every PING gets an
+// idle gap before and / or after it, drawn from the ticker periods of the configuration.
+func PingIdle(t *rapid.T, cfg OutCfg, cmds []SrcCmd) ([]SrcCmd, Schedule) {
+	var out []SrcCmd
+	inTxn := false
+	for i, c := range cmds {
+		n := c.Lower()
+		if i > 0 && !inTxn && (n == "select" || n == "multi") && rapid.IntRange(0, 2).Draw(t, "pingBeforeBarrier") > 0 {
+			for k, m := 0, rapid.IntRange(1, 2).Draw(t, "npings"); k < m; k++ {
+				out = append(out, SrcCmd{Name: rapid.SampledFrom([]string{"PING", "ping"}).Draw(t, "pingName")})
+			}
+		}
+		out = append(out, c)
+		if n == "multi" {
+			inTxn = true
+		} else if n == "exec" {
+			inTxn = false
+		}
+		if !inTxn && n != "select" && rapid.IntRange(0, 7).Draw(t, "pingAfter") == 0 {
+			out = append(out, SrcCmd{Name: "PING"})
+		}
+	}
+	s := Schedule{Chunks: []int{0}}
+	unit := []int{0, cfg.BatchTickerMs/2 + 1, cfg.BatchTickerMs + 3, cfg.BatchTickerMs*2 + 3, cfg.CpTickerMs + 3, cfg.CpTickerMs*2 + 3}
+	for i, c := range out {
+		if c.Lower() != "ping" {
+			continue
+		}
+		if i > 0 {
+			if ms := rapid.SampledFrom(unit).Draw(t, "idleBeforePing"); ms > 0 {
+				s.Pauses = append(s.Pauses, Pause{At: i - 1, Ms: ms})
+			}
+		}
+		if ms := rapid.SampledFrom(unit).Draw(t, "idleAfterPing"); ms > 0 {
+			s.Pauses = append(s.Pauses, Pause{At: i, Ms: ms})
+		}
+	}
+	return out, s
+}
